@@ -312,7 +312,9 @@ def shrink(ops, fails, max_rounds=200):
     ops = list(ops)
     n = 2
     rounds = 0
-    while len(ops) >= 2 and rounds < max_rounds:
+    import time
+    deadline = time.time() + 150        # shrinking is a courtesy: never let it dominate the run
+    while len(ops) >= 2 and rounds < max_rounds and time.time() < deadline:
         rounds += 1
         chunk = max(1, len(ops) // n)
         reduced = False
